@@ -20,7 +20,8 @@ LEVEL = 'exploration'
 CASE_TIMEOUT = 240
 BATCH_SIZE = {'quick': 2, 'thorough': 8}
 REQUIRED_COUNTERS = ['chains_completed', 'centroid_node_pairs_checked',
-                     'stage_handoffs_observed', 'draws_checked']
+                     'stage_handoffs_observed', 'draws_checked',
+                     'chains_with_a_node_wider_than_4x_reported_candidates']
 RULE = ('case = generated labelled reference (separable clusters, 2-4 '
         'levels, 5-9 leaves, leaf names in non-alphabetical creation order) '
         'pushed through statistics -> reference markers (direct route, or '
@@ -58,6 +59,13 @@ def gen_cases(tier, seed):
             'n_per_utility': int(rng.integers(2, 8)),
             'rng_seed': int(rng.integers(2 ** 31)),
         })
+        if i % 4 == 3:
+            # a wide node: one parent with far more children than
+            # runners-up are reported
+            cases[-1].update({'n_levels': 2,
+                              'n_leaves': int(rng.integers(26, 34)),
+                              'n_runners_up': 2, 'wide': True,
+                              'iterations': 5})
     return cases
 
 
@@ -88,7 +96,7 @@ def _map_and_check(spec, rng, mwork, model, means, cols, leaves, pm, stats,
     s.update({'normalization': 'log2CPM', 'flatten': flatten,
               'chunk_size': int(rng.integers(1, len(leaves) + 2)),
               'n_processors': int(rng.integers(1, 4)),
-              'n_runners_up': 3,
+              'n_runners_up': int(spec.get('n_runners_up', 3)),
               'bootstrap_iteration': spec['iterations'],
               'bootstrap_factor': spec['factor'],
               'min_markers': int(rng.integers(1, 8)),
@@ -207,10 +215,16 @@ def run_case(spec, work):
         counters[k] = counters.get(k, 0) + n
     ref = pw.make_reference(rng, work, n_levels=spec['n_levels'],
                             n_leaves=spec['n_leaves'],
-                            n_genes=int(rng.integers(30, 60)),
+                            n_genes=(int(rng.integers(30, 60))
+                                     if not spec.get('wide') else 90),
                             cells_per_leaf=(8, 14),
                             encoding=spec['ref_encoding'])
     model = ref.model
+    widest = max(len(model.children(lv, n)) for lv in [None] +
+                 model.hierarchy[:-1]
+                 for n in ([None] if lv is None else model.nodes[lv]))
+    if widest > 4 * (int(spec.get('n_runners_up', 3)) + 1):
+        bump('chains_with_a_node_wider_than_4x_reported_candidates')
     stats = work / 'stats.h5'
     refm = work / 'refm.h5'
     lookup = work / 'lookup.json'
